@@ -2,6 +2,7 @@
 from engine import guards as G
 from engine import mir
 from . import common as K
+from . import detectors as D
 from .common import VOTOR, VOTE, fshort
 
 EXPLANATION = (
@@ -26,6 +27,7 @@ def vote_sites(prog, kind):
 
 
 def check(run, prefix="O5"):
+    D.ob_state_mutations(run, "O5.10", ['consensus::votor::Votor', 'consensus::votor::SlotState'], "the per-slot voting flags are what makes the node's votes non-slashable: any other write can re-enable a vote")
     prog = run.program("lib")
     P = prefix
 
